@@ -823,9 +823,20 @@ func dominatedByTrue(in ssa.Instruction, pred func(ssa.Value) bool) bool {
 // passed to Modify in the module.
 func (c *Ctx) checkModifyAssertions(r *Report, rule string) {
 	modify := c.Fn("ast", "Modify")
-	fn := c.SSAFn(modify)
-	// which input types may be mapped to a different concrete type by some callback?
 	subst := c.rewriterSubstitutions()
+	// Modify itself and the helpers of package ast that call it (a case body moved into its own function)
+	var fns []*ssa.Function
+	for _, f := range c.ModuleSSAFuncs() {
+		if f.Pkg != nil && shortPkg(f.Pkg.Pkg) == "ast" && (f == c.SSAFn(modify) || len(callsIn(f, modify)) > 0) {
+			fns = append(fns, f)
+		}
+	}
+	for _, fn := range fns {
+		c.checkModifyAssertionsIn(r, rule, fn, modify, subst)
+	}
+}
+
+func (c *Ctx) checkModifyAssertionsIn(r *Report, rule string, fn *ssa.Function, modify *types.Func, subst map[string][]string) {
 	eachInstr(fn, func(in ssa.Instruction) {
 		ta, ok := in.(*ssa.TypeAssert)
 		if !ok {
